@@ -250,10 +250,11 @@ func c04vectorised(name string, N, nSets, nBlocks, T int, padCells, padSteps int
 	vsym.Reach("before-run")
 	runIn := inputs
 	runOut := outputs
-	if padCells > 0 || padSteps > 0 {
+	if (padCells > 0 || padSteps > 0) && !(padCells+padSteps == 1) {
 		// a larger, caller-owned output array: the run gets the view of the needed size
 		runOut = outputs.Slice([]int{0, 0, 0}, []int{N, nO, T}, nil).(data.ND3Float64)
 	}
+	// padding in exactly one dimension: the larger array itself is handed to Run ("exactly the needed size or larger")
 	w.m.Run(runIn, states, runOut)
 	vsym.Reach("after-run")
 	// inputs and parameters are untouched
